@@ -136,6 +136,15 @@ struct Emitter
             O["pd"] = d;
         if (B->isFunctionType())
             O["fnty"] = true;
+        // pointer to a vector type: the alignment an access through it assumes (typedef
+        // attributes such as aligned(1) of __m256i_u are honoured) and the vector's size
+        if (d == 1 && T->isPointerType()) {
+            QualType P = T->getPointeeType();
+            if (!P.isNull() && !P->isDependentType() && !P->isIncompleteType() && P->isVectorType()) {
+                O["vec_align"] = (int64_t)Ctx.getTypeAlignInChars(P).getQuantity();
+                O["vec_size"] = (int64_t)Ctx.getTypeSizeInChars(P).getQuantity();
+            }
+        }
     }
 
     void noteEnum(const EnumDecl* ED)
